@@ -106,9 +106,9 @@ struct ThrEngine : Engine {
 	const char * name() const override { return "thr"; }
 	const char * property() const override { return "C17"; }
 	std::string rule() const override {
-		return "plan = 2..4 threads, each with its own stream of 1..4 conversions (documents x 13 formats x extension sets; c-string, DString and per-thread reused-engine families), pool compiled out; "
+		return "plan = 2..4 threads, each with its own stream of 1..4 operations - conversions (documents x 13 formats x extension sets; c-string, DString and per-thread reused-engine families), metadata queries/updates, CriticMarkup accept/reject, transclusion against missing files, OPML/iThoughts import - pool compiled out; "
 		       "one thread runs at a time, a seeded scheduler pre-empts at every instrumented access to memory another thread touched, at every access to the library's writable segment, at every "
-		       "libc call with hidden state (rand, srand, time, localtime) and at 1/64 of function entries. Oracle: own happens-before race detector over all instrumented accesses (no synchronisation exists "
+		       "libc call with hidden state (rand, srand, time, localtime, gmtime, ctime, asctime, strtok, setenv, tmpnam, setlocale) and at 1/64 of function entries. Oracle: own happens-before race detector over all instrumented accesses (no synchronisation exists "
 		       "between workers) + per-thread outputs equal the thread's stream run alone in a fresh process (operations that drew libc randomness excepted). Distinct = plan hash (schedule seed included); "
 		       "non-trivial = >=2 threads that each executed >=1 conversion and >=1 pre-emption happened inside the library.";
 	}
